@@ -2,11 +2,11 @@
 
 PROPERTIES = ['C%02d' % i for i in range(1, 21)]
 
-ESZ = {'B': 1, 'W': 4, 'T3': 3, 'R': 2, 'X': 16}
+ESZ = {'B': 1, 'W': 4, 'T3': 3, 'R': 2, 'X': 8, 'Y': 8}
 
 def vec_cfg(kind, n, e, ak=0, s='uint8_t', cls=2, faults=None, cmax=None, count=None, extra=None):
     d = {'VF_KIND': kind, 'VF_N': n, 'VF_E': e, 'VF_AK': ak, 'VF_S': s, 'VF_CLS': cls}
-    ledger = e in ('R', 'X')
+    ledger = e in ('R', 'X', 'Y')
     if kind == 2: cmax = n
     elif cmax is None: cmax = n + 1 if ledger else n + 3
     if count is None: count = 2 if ledger else 3
@@ -46,7 +46,7 @@ def vec_queries(Query, ops, cfgs, timeout=300, unwind=None):
             if d['VF_KIND'] == 0 and d['VF_CLS'] == 0 and op in NEEDS_NONEMPTY: continue     # an amc::vector without storage is empty
             if 'input' in op: timeout = max(timeout, 600)
             qs.append(Query('%s.%s' % (op, cfg_name(d)), 'vec_ops.cpp', 'h_' + op, defs=d, arena=arena_for(d), unwind=unwind or d['VF_MAXM'] + 2, timeout=timeout,
-                            mem_gb=(5 if d['VF_E'] in ('R', 'X') else 3) * (4 if op == 'insert_range_input' else 2 if ('input' in op or (d['VF_E'] in ('R', 'X') and op.startswith(('insert_n', 'insert_range', 'insert_il', 'alias_insert_n')))) else 1),
+                            mem_gb=(5 if d['VF_E'] in ('R', 'X', 'Y') else 3) * (4 if op == 'insert_range_input' else 2 if ('input' in op or (d['VF_E'] in ('R', 'X', 'Y') and op.startswith(('insert_n', 'insert_range', 'insert_il', 'alias_insert_n')))) else 1),
                             optional_reach=(2,) if op in ('shrink_to_fit', 'reserve') else (),
                             symbolic='state class (inline/heap), size, capacity, element values, position, count, value',
                             bounds=dict(N=d['VF_N'], size_max=d.get('VF_CMAX', d['VF_N'] + 3), capacity_max=d.get('VF_CMAX', d['VF_N'] + 3), count_max=d.get('VF_COUNT_MAX', 3), values='8-bit')))
@@ -89,6 +89,8 @@ TRAIT_OPS = ['push_back_copy', 'emplace_back', 'pop_back_val', 'insert_one_copy'
              'assign_range_ptr', 'erase_one', 'erase_range', 'resize_val', 'assign_n', 'shrink_to_fit', 'reserve', 'copy_ctor', 'move_ctor',
              'copy_assign', 'move_assign', 'swap_member', 'ctor_range']
 
+Y_OPS = ['insert_n', 'insert_range_ptr', 'insert_range_fwd', 'insert_il', 'insert_one_copy', 'emplace', 'erase_range', 'assign_n', 'assign_range_fwd', 'resize_val']
+
 def input_cfg(d):
     d = dict(d); d['VF_COUNT_MAX'] = 2; d['VF_MAXM'] = d['VF_CMAX'] + 3
     return d
@@ -102,9 +104,11 @@ def vec_plan(Query, pid, tier):
             q += vec_queries(Query, INPUT_OPS, [input_cfg(vec_cfg(1, 2, 'B', cls=0)), input_cfg(vec_cfg(1, 2, 'B', cls=1, cmax=3))])
             q += vec_queries(Query, TRAIT_OPS, [vec_cfg(1, 2, 'X', ak=2, cls=0), vec_cfg(1, 2, 'X', ak=2, cls=1)])
             q += vec_queries(Query, ALIAS_OPS, [sv2B])      # self-referential arguments are ordinary histories too (see C10 for the full matrix)
+            q += vec_queries(Query, Y_OPS, [vec_cfg(1, 2, 'Y', ak=1, cls=0, cmax=4, count=3), vec_cfg(1, 2, 'Y', ak=1, cls=1, cmax=4, count=3)])   # non-relocatable with nothrow copies: shift-and-fill paths
         elif pid == 'C02':
             q += vec_queries(Query, MUTATING, [vec_cfg(1, 2, 'X', ak=2, cls=0), vec_cfg(1, 2, 'X', ak=2, cls=1), vec_cfg(1, 3, 'R', ak=0)])
             q += vec_queries(Query, TRAIT_OPS, [vec_cfg(2, 3, 'X'), vec_cfg(0, 0, 'X', ak=1, s='uint32_t', cls=0), vec_cfg(0, 0, 'X', ak=1, s='uint32_t', cls=1)])
+            q += vec_queries(Query, Y_OPS, [vec_cfg(1, 2, 'Y', ak=1, cls=0, cmax=4, count=3), vec_cfg(1, 2, 'Y', ak=1, cls=1, cmax=4, count=3), vec_cfg(2, 4, 'Y')])
         elif pid == 'C05':
             q += vec_queries(Query, NONINPUT_OPS, [vec_cfg(1, 2, 'B', cls=0), vec_cfg(1, 3, 'R', cls=0), vec_cfg(2, 3, 'B')])
             q += vec_queries(Query, VEC_OPS_BINARY + ['copy_ctor', 'move_ctor', 'shrink_to_fit', 'reserve'], [sv2B])
@@ -232,7 +236,7 @@ def flatset_plan(Query, pid, tier):
         q += fs_queries(Query, ['insert_hint'], hint[:2] if quick else hint, timeout=600)
         q += fs_queries(Query, ['insert_range'], [fs_cfg(0, cmp=2, d=1, sh=1, stub=True, mx=2, cls=1), fs_cfg(1, cmp=0, stub=True, mx=2, cls=0)] +
                         ([] if quick else [fs_cfg(0, cmp=2, d=0, sh=1, stub=True, mx=2, cls=1, il=True), fs_cfg(2, n=8, cmp=1, stub=True, mx=3)]), timeout=900, mem_gb=8)
-        q += fs_queries(Query, ['merge_same'], [fs_cfg(0, cmp=2, d=1, sh=1, mx=1, cls=1), fs_cfg(1, cmp=0, mx=1, cls=0)], timeout=900, mem_gb=10)
+        q += fs_queries(Query, ['merge_same', 'merge_other'], [fs_cfg(0, cmp=2, d=1, sh=1, mx=1, cls=1), fs_cfg(1, cmp=0, mx=1, cls=0)], timeout=900, mem_gb=10)
         q += fs_queries(Query, ['ctor_range', 'from_vector'], [fs_cfg(1, cmp=0, stub=True, mx=2, rng=1, cls=0)] + ([] if quick else [fs_cfg(0, cmp=2, d=1, sh=1, stub=True, mx=1, rng=1, cls=1)]), timeout=900, mem_gb=10)
         return q
     if pid == 'C19':
@@ -273,15 +277,16 @@ def plan(pid, tier, Query):
                    [(2, 'B', op, 2, nm) for op in range(8) for nm in ('cxx11', 'asserts')] + \
                    [(1, 'X', op, k, 'cxx11') for op in (0, 1, 3, 6) for k in (2, 4)] + \
                    [(3, 'B', op, k, nm) for op in range(4) for k in (1, 3) for nm in ('cxx11', 'cxx20', 'asserts', 'O2')]
+        jobs += [(4, 'B', 0, 0, nm) for nm in (('cxx11', 'cxx14') if quick else ('cxx11', 'cxx14', 'cxx20', 'asserts', 'O2'))]      # swap2 at the size_type limit
         alts = dict(pairs)
         for kind, e, op, k, nm in jobs:
             alt = alts[nm]
             d = {'MS_KIND': kind, 'MS_E': e, 'MS_KFIX': k, 'MS_OP': op}
             if e == 'B' and kind != 3: d['MS_LESS'] = ''
             if e == 'X': d['VF_NID'] = 32
-            qs.append(Query('miter.%s_%s_%s_k%d.cxx17_vs_%s' % (['vec', 'sv3', 'fcv4', 'flatset'][kind], e, OPS[op] if kind != 3 else ['hint', 'erase', 'lookup', 'copy_swap'][op], k, nm),
+            qs.append(Query('miter.%s_%s_%s_k%d.cxx17_vs_%s' % (['vec', 'sv3', 'fcv4', 'flatset', 'swap2lim'][kind], e, (OPS[op] if kind < 3 else ['hint', 'erase', 'lookup', 'copy_swap'][op] if kind == 3 else 'u8_u32'), k, nm),
                             'miter_script.cpp', 'h_script', defs=d, miter=alt,
-                            arena=(4, 32 if e == 'B' else 128), unwind=12, timeout=900, mem_gb=6, object_bits=10 if alt.get('opt') == '-O0' else None,
+                            arena=((4, 32 if e == 'B' else 128) if kind != 4 else (2, 272)), unwind=12, timeout=900, mem_gb=6, object_bits=10 if alt.get('opt') == '-O0' else None,
                             extra_cbmc=('-DVF_MITER',), symbolic='values of the initial push_backs, position, count, value (operation and number of pushes fixed per query)',
                             bounds=dict(initial_pushes=k, count_max=3, configurations='c++17 -O1 NDEBUG NONSTD  vs  %s' % alt)))
         return qs
